@@ -977,7 +977,8 @@ def search(seed, tier):
                         import_lock['example'] = {'call': short(d), 'threads': req['nthreads'], 'traceback': tb}
                     continue
                 site = 'c13:threads:%s.%s' % (d['module'], d['function'])
-                if o[0] == 'err' and o[1] in ('ModuleNotFoundError', 'ImportError', '_DeadlockError'):
+                if o[0] == 'err' and (o[1] in ('ModuleNotFoundError', 'ImportError', '_DeadlockError') or
+                                      (tb and ('partially initialized module' in str(tb) or '<frozen importlib' in str(tb)))):
                     # the import machinery itself failed during a concurrent first import (function-level
                     # `from stdnum import numdb`, get_cc_module's __import__): one root cause, whichever
                     # function happened to trigger the import in this run
